@@ -146,15 +146,64 @@ def scalarDefault (kind : String) (v : Val) : DRes PyVal :=
   else if kind = "bool" then .ok (.bool false)
   else .ok (.str "unknown")
 
+/-- `tools.AnyToInt64` on the dynamic types it converts (anything else: the type assertion panics) -/
+def anyToInt64 : Val → Option Int
+  | .int t n => if t == "i" || t == "i8" || t == "i16" || t == "i32" || t == "i64" then some n else none
+  | .float _ r => (parseGoFloat r).map fun q => Int.tdiv q 4
+  | _ => none
+
+/-- `ast.EnumType.MemberForValue` (IR-level code shared by all jennies): the first member whose value
+    equals the given one — Go `==` on the two `any` for string enums, `AnyToInt64` of both otherwise —,
+    the FIRST member when there is none -/
+def memberForValue (vals : List EnumVal) (v : Val) : DRes EnumVal :=
+  match vals with
+  | [] => .unsup "empty enum"
+  | v0 :: _ =>
+    if isNilVal v then .ok v0
+    else if v0.kind == "string" then .ok ((vals.find? fun ev => valScalarEq ev.value v).getD v0)
+    else
+      match anyToInt64 v with
+      | none => .unsup "AnyToInt64 panics"
+      | some n =>
+        if vals.all (fun ev => (anyToInt64 ev.value).isSome) then
+          .ok ((vals.find? fun ev => anyToInt64 ev.value == some n).getD v0)
+        else .unsup "AnyToInt64 panics"
+
+/-- `formatConstantReference(ref, true)` = `formatEnumValue`: the member `Enum.NAME` the constructor
+    assigns, as the value it prints as -/
+def crefPy (ss : Schemas) (pkg name : String) (v : Val) : DRes PyVal :=
+  match Schemas.locateObject ss pkg name with
+  | none => .unsup "constant reference to an unknown object"
+  | some o =>
+    match o.ty with
+    | .enum vals _ => (memberForValue vals v).bind fun ev => ofOpt "enum member literal" (valToPy ev.value)
+    | _ => .unsup "constant reference to a non-enum"
+
+/-- what `__init__` assigns to a member it does not take from its arguments: constant references
+    (checked first) and concrete scalars -/
+def fixedValue (ss : Schemas) (t : Ty) : Option (DRes PyVal) :=
+  match t with
+  | .cref p n v _ => some (crefPy ss p n v)
+  | _ =>
+    match constOf t with
+    | some c => some (ofOpt "constant literal" (valToPy c))
+    | none => none
+
+theorem fixedValue_isSome (ss : Schemas) (t : Ty) :
+    (fixedValue ss t).isSome = (isCref t || (constOf t).isSome) := by
+  cases t with
+  | scalar k v cs m =>
+    simp only [fixedValue, isCref, crefVal, constOf, Option.isSome_none, Bool.false_or]
+    cases h : isNilVal v <;> simp
+  | _ => simp [fixedValue, isCref, crefVal, constOf]
+
 /-- one attribute of `__init__`: `arg` is what `from_json` (or a default expression) passed for it -/
-def initFieldWith (dfl : Ty → DRes PyVal) (f : Field) (arg : Option PyVal) : DRes PyVal :=
-  match crefVal f.ty with
-  | some v => ofOpt "enum member literal" (valToPy v)
+def initFieldWith (ss : Schemas) (dfl : Ty → DRes PyVal) (f : Field) (arg : Option PyVal) : DRes PyVal :=
+  match fixedValue ss f.ty with
+  | some r => r
   | none =>
     if isSlot f.ty then .unsup "composable slot" else
-    match constOf f.ty with
-    | some c => ofOpt "constant literal" (valToPy c)
-    | none =>
+    (
       if isRefLike f.ty then
         match arg with
         | some v => if v.isNone && needsDefault f.ty then dfl f.ty else .ok v
@@ -162,16 +211,16 @@ def initFieldWith (dfl : Ty → DRes PyVal) (f : Field) (arg : Option PyVal) : D
       else
         match arg with
         | some v => .ok v
-        | none => if needsDefault f.ty then dfl f.ty else .ok .none
+        | none => if needsDefault f.ty then dfl f.ty else .ok .none)
 
 def lookupArg (k : String) : List (String × PyVal) → Option PyVal
   | [] => none
   | (k', v) :: t => if k' = k then some v else lookupArg k t
 
 /-- `Cls(**args)`; `args` keyed by the JSON field name -/
-def initWith (dfl : Ty → DRes PyVal) (fields : List Field) (args : List (String × PyVal)) : DRes PyVal :=
+def initWith (ss : Schemas) (dfl : Ty → DRes PyVal) (fields : List Field) (args : List (String × PyVal)) : DRes PyVal :=
   (mapRes (fun (f : Field) =>
-    (initFieldWith dfl f (lookupArg f.name args)).map fun v => (f.name, f.required, v)) fields).map .obj
+    (initFieldWith ss dfl f (lookupArg f.name args)).map fun v => (f.name, f.required, v)) fields).map .obj
 
 /-- `defaultValueForType(schemas, typeDef, importModule, defaultsOverrides)` as the Python value the
     printed expression evaluates to -/
@@ -210,7 +259,7 @@ def pyDefault : Nat → Schemas → Ty → Option (List (String × Val)) → DRe
                 if f.ty.isRef then
                   (pyDefault fuel ss f.ty (match kv.2 with | .map m' => some m' | _ => none)).map fun v => (kv.1, v)
                 else (ofOpt "override literal" (valToPy kv.2)).map fun v => (kv.1, v)) named).bind fun args =>
-            initWith (fun t' => pyDefault fuel ss t' (overridesOf t')) fields args
+            initWith ss (fun t' => pyDefault fuel ss t' (overridesOf t')) fields args
         | .scalar _ v _ _ =>
           if isNilVal v then .unsup "default of a scalar alias" else ofOpt "constant literal" (valToPy v)
         | .array .. => .ok (.list [])        -- `Name()` where `Name: TypeAlias = list[…]`
@@ -224,20 +273,20 @@ def pyDefault : Nat → Schemas → Ty → Option (List (String × Val)) → DRe
     | _ => .ok (.str "unknown")
 
 /-- one field of `X.from_json(data)` + `cls(**args)` for `data` a dict with these members -/
-def pyFieldWith (dec : Ty → Json → DRes PyVal) (dfl : Ty → DRes PyVal)
+def pyFieldWith (ss : Schemas) (dec : Ty → Json → DRes PyVal) (dfl : Ty → DRes PyVal)
     (members : List (String × Json)) (f : Field) : DRes (String × Bool × PyVal) :=
   (match (if isConstField f then none else Json.lookup f.name members) with
-   | some v => (dec f.ty v).bind fun pv => initFieldWith dfl f (some pv)
-   | none => initFieldWith dfl f none).map fun v => (f.name, f.required, v)
+   | some v => (dec f.ty v).bind fun pv => initFieldWith ss dfl f (some pv)
+   | none => initFieldWith ss dfl f none).map fun v => (f.name, f.required, v)
 
 /-- `X.from_json(data)` -/
-def classFromJsonWith (dec : Ty → Json → DRes PyVal) (dfl : Ty → DRes PyVal)
+def classFromJsonWith (ss : Schemas) (dec : Ty → Json → DRes PyVal) (dfl : Ty → DRes PyVal)
     (fields : List Field) (j : Json) : DRes PyVal :=
   match j with
-  | .obj members => (mapRes (pyFieldWith dec dfl members) fields).map .obj
+  | .obj members => (mapRes (pyFieldWith ss dec dfl members) fields).map .obj
   | .null | .bool _ | .num _ =>
     -- `"k" in data` raises TypeError on None / bool / number — if there is any such test
-    if fields.all isConstField then (mapRes (pyFieldWith dec dfl []) fields).map .obj else .err
+    if fields.all isConstField then (mapRes (pyFieldWith ss dec dfl []) fields).map .obj else .err
   | _ => .unsup "from_json on a str/list"
 
 def catchAll : String := "cog_discriminator_catch_all"
@@ -262,7 +311,7 @@ def pyFromJson : Nat → Schemas → Ty → Json → DRes PyVal
       | some o =>
         match o.ty with
         | .struct fields _ _ _ =>
-          classFromJsonWith (pyFromJson fuel ss) (fun t' => pyDefault fuel ss t' (overridesOf t')) fields j
+          classFromJsonWith ss (pyFromJson fuel ss) (fun t' => pyDefault fuel ss t' (overridesOf t')) fields j
         | other => pyFromJson fuel ss other j
     | .array e _ =>
       if e.isScalar then .ok (PyVal.ofJson j)
